@@ -199,6 +199,10 @@ def schedules(fam):
         out.append(SC(fam, "limit256", {"t": Mo(z=P("1"))},
                       [opn("c1")] + [sb] * 3 + [Q] + [sb] * 253 + [Q, sb, sb, Q, unsub("c1", "t", 257), Q, unsub("c1", "t", 255), Q,
                                                                        sb, Q, unsub("c1", "t", 2), Q, get("c1", "t"), Q]))
+        # a get at the limit is refused and leaves the count unchanged too
+        gt = dict(get("c1", "t"), settle=True)
+        out.append(SC(fam, "limit256get", {"t": Mo(z=P("1"))},
+                      [opn("c1")] + [sb] * 3 + [Q] + [sb] * 253 + [Q, gt, gt, Q, sb, Q, unsub("c1", "t", 257), Q, unsub("c1", "t", 256), Q, ev("t", "custom"), Q]))
     if fam.startswith("thr-reset"):
         # many connections on one resource, access reset, answers newest first (the shape of issue #217)
         cs = ["c%d" % i for i in range(1, 9)]
@@ -210,6 +214,14 @@ def schedules(fam):
                   {"op": "reset", "acc": ["e"], "settle": True}, {"op": "reset", "acc": ["e"], "settle": True}]
         steps += [{"op": "reply", "t": "access", "pick": 3, "out": "deny", "settle": True}] * 4 + [Q]
         out.append(S(fam, "many", steps))
+    if fam.startswith("thr-reset"):
+        # a token reset reaches several connections; one of them gets a new token before the auth requests are answered:
+        # every auth request carries the token its connection has when the request is sent
+        tkc2 = lambda c, t: {"op": "token", "c": c, "tok": t, "tid": "tid1", "settle": True}
+        out.append(S(fam, "tokenresetnewtoken", [opn("c1"), opn("c2"), opn("c3"), tkc2("c1", '"t1"'), tkc2("c2", '"t1"'), tkc2("c3", '"t1"'), Q,
+                                                 {"op": "tokenreset", "tids": ["tid1"], "settle": True}, tkc2("c1", '"t2"'), tkc2("c2", '"t2"'), tkc2("c3", '"t2"'),
+                                                 {"op": "reply", "t": "auth", "pick": 0, "settle": True}, {"op": "reply", "t": "auth", "pick": 0, "settle": True},
+                                                 {"op": "reply", "t": "auth", "pick": 0, "settle": True}, Q]))
     if fam.startswith("thr-reset"):
         # a connection closes while its own throttled access request is outstanding and the service answers afterwards:
         # the answer must still release the next waiting request, for every connection left
@@ -303,6 +315,14 @@ def schedules(fam):
             steps += [inj("a", sh), Q]
         steps += [ev("a", "custom"), Q]
         out.append(S(fam, "connsysshapes", steps))
+    if fam.startswith("thr-ref"):
+        # references added by one change event after the subscription has been loaded are fetched under the same limit
+        stt = dict(settle=True)
+        out.append(SC(fam, "refsafterload", {"p": Mo(z=P("1")), "k1": Mo(z=P("1")), "k2": Mo(z=P("1")), "k3": Mo(z=P("1")), "k4": Mo(z=P("1"))},
+                      [opn("c1"), dict(sub("c1", "p"), **stt), Q,
+                       dict(ev("p", "change", k="a", val=R("k1"), more={"b": {"t": "r", "v": "k2"}, "c": {"t": "r", "v": "k3"}, "d": {"t": "r", "v": "k4"}}), **stt),
+                       dict(reply("get", ""), pick=3, **stt), dict(reply("get", ""), pick=2, **stt), dict(reply("get", ""), pick=1, **stt), dict(reply("get", ""), pick=0, **stt),
+                       Q, ev("p", "custom"), Q]))
     if fam == "life":
         # Stop / connection loss while a connection's worker is blocked writing to a client that has stopped reading:
         # the socket must be closed all the same, within the bounded time
@@ -325,6 +345,22 @@ def schedules(fam):
         longrid = "a." + "x" * 4100
         out.append(S(fam, "toolong", [opn("c1"), sub("c1", longrid), Q, sub("c1", longrid), Q, sub("c1", "a"), Q,
                                       {"op": "time", "ms": 6000}, Q]))
+    if fam == "query":
+        # a query event is answered while a reset's re-fetch of the query resource is outstanding, and the re-fetch then
+        # fails: what the query answer told must still reach the clients
+        stq2 = dict(settle=True)
+        for outc in ("err", "timeout"):
+            out.append(S(fam, "queryduringrefetch-" + outc,
+                         [opn("c1"), dict(sub("c1", "q?a=1"), **stq2), Q, {"op": "reset", "res": ["q"], "acc": [], "settle": True},
+                          {"op": "mutate", "n": "q?n=1", "a": 0, "val": P("9")}, ev("q", "query", **stq2), dict(reply("query", "q"), **stq2),
+                          dict(reply("get", "q", out=outc), **stq2), Q, {"op": "mutate", "n": "q?n=1", "a": 0, "val": P("8")}, ev("q", "query"), Q]))
+    if fam == "query":
+        # a query resource that has been changed through a query event is then deleted by a not-found answer to the next
+        # query request: every holder gets the delete event
+        stq = dict(settle=True)
+        out.append(S(fam, "querydelete", [opn("c1"), opn("c2"), dict(sub("c1", "q?a=1"), **stq), Q, dict(sub("c2", "q?a=1"), **stq), Q,
+                                          {"op": "mutate", "n": "q?n=1", "a": 0, "val": P("9")}, ev("q", "query"), Q,
+                                          {"op": "gone", "n": "q?n=1"}, ev("q", "query"), Q]))
     if fam == "query":
         # two aliasing queries both in flight
         out.append(S(fam, "alias2", [opn("c1"), sub("c1", "q?a=1"), conn("c1"), cache("q"), sub("c1", "q?b=1"), conn("c1"), cache("q"),
